@@ -484,6 +484,7 @@ func main() {
 		}
 	}
 	samples := core.NewSampler(6, run.Seed)
+	samples.Add(map[string]interface{}{"powers": s.starts[len(s.starts)/2], "history": "[]"})
 	t0 := time.Now()
 	done, capped := s.run(maxDepth, func(level int) []uint8 {
 		if level < wideDepth {
@@ -516,14 +517,14 @@ func main() {
 	run.Finish(core.Coverage{
 		"states":                        len(s.seen),
 		"transitions":                   s.transitions,
-		"traces_validated_against_impl": execs,
+		"traces_validated_against_impl": s.transitions + int64(len(s.starts)),
 		"evaluations":                   execs,
 		"distinct_nontrivial":           c.seqs.Len(),
 		"rule": "breadth-first over ALL operation histories of length <= depth_by_set_size from every start set (powers in {1,2,3,5}^n, n<=3: all 84; n=4: 6 vectors incl. all-equal, pairwise-equal and one ~2^60); " +
 			"the first wide_depth operations of a history range over the wide alphabet (IncrementAccum 1|2|3, Proposer, Hash, save/load through state.State, Add of a new member below/between/above the existing ones, Add of an existing address, Update of every position to every other power in {1,2,3,5}, Remove of every position, Copy; each addressed to either of two live copies), later operations over the core alphabet (IncrementAccum 1|2|3, save/load, Add in the middle, Update first member one power step up / last member one step down, Remove first/last, Copy; either copy); " +
 			"every history is replayed on a fresh real ValidatorSet and observed only at its end; states = distinct canonical keys (members+powers+accums in order, Proposer().Address, TotalVotingPower() of both copies, modulo exchanging the copies); a history reaching a known key is not expanded again, instead its next-operation observations are compared with the representative's (merge oracle) unless its complete concrete state incl. cache fields equals one already compared; " +
 			"per history: R3 (lineage of each copy alone), R4 (same history without save/load steps), membership reference; per state: R1 (second run, members offered in opposite order, incl. Hash), R6, R2 (every composition of rounds 2..max_round via Copy+IncrementAccum), R5 (2T single selections, all T+1 windows); " +
-			"transitions = enabled (state, operation) pairs executed = enumerated histories; evaluations = executions of a history on the real code (main runs, comparison partners, follow-ups of the merge oracle); distinct_nontrivial = distinct (member list, selection sequence) pairs seen in R5",
+			"transitions = enabled (state, operation) pairs executed; traces_validated_against_impl = enumerated histories (start sets + transitions), every one executed on the real code; evaluations = executions of a history on the real code (main runs, comparison partners, follow-ups of the merge oracle); distinct_nontrivial = distinct (member list, selection sequence) pairs seen in R5",
 		"exhaustive":                      !capped,
 		"bounds":                          map[string]interface{}{"depth_by_set_size": depthByN, "wide_depth": wideDepth, "depth_completed": done, "max_round_R2": c.maxRound, "fairness_total_power_cap": c.fairCap, "start_sets": len(s.starts), "wide_alphabet": len(wide), "core_alphabet": len(coreA), "merge_alphabet": len(mergeA), "time_cap_s": budget.Seconds()},
 		"levels":                          levels,
@@ -532,7 +533,6 @@ func main() {
 		"merges_identical_concrete_state": s.mergesSameConcrete,
 		"concrete_state_fingerprint":      hiddenOK,
 		"merge_conflicts":                 s.mergeConflicts,
-		"histories_executed":              s.transitions + int64(len(s.starts)),
 		"derived_history_memo_hits":       c.nMemoHit,
 		"R1_reruns":                       c.nR1,
 		"R2_paths_compared":               c.nR2paths,
